@@ -412,23 +412,14 @@ Lemma Qsum_delta_one (x : Z) (d : Q) (l : list Z) :
   NoDup l -> In x l -> Qsum (map (fun c => if Z.eqb x c then d else 0) l) == d.
 Proof.
   induction l as [|y l IH]; intros Hnd Hin; [destruct Hin|].
-  inversion Hnd as [|? ? Hnot Hnd']; subst. simpl.
+  inversion Hnd as [|? ? Hnot Hnd']; subst. simpl. rewrite Qred_correct.
   destruct (Z.eqb_spec x y) as [->|Hne].
   - assert (Z0 : Qsum (map (fun c => if Z.eqb y c then d else 0) l) == 0).
-    { clear - Hnot. induction l as [|z l IH]; simpl; [reflexivity|].
+    { clear - Hnot. induction l as [|z l IH]; simpl; rewrite ?Qred_correct; [reflexivity|].
       destruct (Z.eqb_spec y z) as [->|_]; [exfalso; apply Hnot; left; reflexivity|].
       rewrite IH; [ring|]. intro H. apply Hnot. right. exact H. }
     rewrite Z0. ring.
   - destruct Hin as [E|Hin]; [congruence|]. rewrite IH by assumption. ring.
-Qed.
-
-Lemma Qsum_map_plus {A} (f g : A -> Q) l : Qsum (map (fun c => f c + g c) l) == Qsum (map f l) + Qsum (map g l).
-Proof. induction l as [|x l IH]; simpl; [ring | rewrite IH; ring]. Qed.
-
-Lemma Qsum_map_ext {A} (f g : A -> Q) l : (forall x, In x l -> f x == g x) -> Qsum (map f l) == Qsum (map g l).
-Proof.
-  induction l as [|x l IH]; intro H; simpl; [reflexivity|].
-  rewrite H by (left; reflexivity). rewrite IH; [reflexivity|]. intros y Hy. apply H. right. exact Hy.
 Qed.
 
 Lemma Qsum_lookup0_subset idx : forall deltas new,
@@ -437,11 +428,11 @@ Lemma Qsum_lookup0_subset idx : forall deltas new,
   Qsum (map (lookup0 idx deltas) new) == Qsum deltas.
 Proof.
   induction idx as [|x idx IH]; intros [|d deltas] new Hnd Hnn Hl Hsub; simpl in Hl; try discriminate.
-  - unfold lookup0. simpl. clear. induction new; simpl; [reflexivity | rewrite IHnew; ring].
+  - unfold lookup0. simpl. clear. induction new; simpl; rewrite ?Qred_correct; [reflexivity | rewrite IHnew; ring].
   - inversion Hnd as [|? ? Hnot Hnd']; subst.
     rewrite (Qsum_map_ext _ (fun c => (if Z.eqb x c then d else 0) + lookup0 idx deltas c)).
     + rewrite Qsum_map_plus, Qsum_delta_one, IH; auto.
-      * simpl. reflexivity.
+      * rewrite Qsum_cons. reflexivity.
       * intros y Hy. apply Hsub. right. exact Hy.
       * apply Hsub. left. reflexivity.
     + intros c _. unfold lookup0. simpl. destruct (Z.eqb_spec x c) as [->|_].
@@ -464,8 +455,6 @@ Proof.
   assert (Hp2 : 0 < Qlen (cfgs new_idx)) by (apply Qlen_pos; exact Hnn).
   set (k := Qlen (cfgs new_idx) / Qlen (cfgs idx) * sf).
   rewrite (Qsum_map_ext _ (fun c => lookup0 (cfgs idx) deltas c * k)) by (intros; unfold k; field; lra).
-  assert (Hs : forall l, Qsum (map (fun c => lookup0 (cfgs idx) deltas c * k) l) == Qsum (map (lookup0 (cfgs idx) deltas) l) * k).
-  { induction l as [|x l IH]; simpl; [ring | rewrite IH; ring]. }
-  rewrite Hs, Qsum_lookup0_subset; auto using incr_NoDup.
+  rewrite Qsum_map_scale_r, Qsum_lookup0_subset; auto using incr_NoDup.
   unfold k. field. lra.
 Qed.
